@@ -52,6 +52,53 @@ theorem step_done (c : Config) (raised : String → Nat → Bool) (st : RunState
     step c raised st = st := by
   unfold step; simp [h]
 
+/-- **The schedule respects the dependencies**: in the order `SortActions` returns, every action scheduled on its
+own account (outside iterations, or the first member of an iteration) comes after everything it requires —
+for every configuration whose iterations do not share members. -/
+theorem schedule_respects_requirements (c : Config) (hwf : WFIter c) (order : List String)
+    (h : sortActions c = .ok order) : wp c [] order = true :=
+  sort_respects_requirements c hwf order h
+
+/-- … where "requires" includes its own requirements … -/
+theorem requirements_include_own (c : Config) (a r : String) (h : r ∈ c.rawRequires a) : r ∈ c.requiresOf a :=
+  own_requirements_kept c a r h
+
+/-- … and, for the first member of an iteration, whatever any member needs from outside the iteration (the
+repaired finding F7; the pinned behaviour is `requiresOfPinned`, see the example below). -/
+theorem first_member_waits_for_all (c : Config) (it : Iteration) (hit : it ∈ c.iterations) (h p r : String)
+    (hh : it.predicates.head? = some h) (hhn : h ∈ c.names)
+    (hp : p ∈ it.predicates) (hpn : p ∈ c.names) (hr : r ∈ c.requiresHalf p) (hout : r ∉ it.predicates) :
+    r ∈ c.requiresOf h :=
+  head_waits_for_members c it hit h p r hh hhn hp hpn hr hout
+
+/-- the F7 plan: the repaired propagation makes U wait for X, the pinned one did not; the schedule is X U L -/
+example :
+    let c : Config := ⟨[⟨"X", []⟩, ⟨"U", []⟩, ⟨"L", ["U", "X"]⟩], [⟨"it", ["U", "L"], 2, "", false⟩]⟩
+    c.requiresOf "U" = ["X"] ∧ c.requiresOfPinned "U" = [] ∧ sortActions c = .ok ["X", "U", "L"] ∧
+    wp c [] ["X", "U", "L"] = true ∧ wp c [] ["U", "L", "X"] = false := by
+  decide
+
+/-- **Repetition counts**: when the run is over, every scheduled action outside iterations ran exactly once and
+every member of an iteration ran exactly its declared number of repetitions (at least once), unless the stop
+signal ended it — then at least once and at most that often.  For every configuration, schedule and behaviour
+of the stop-signal oracle. -/
+theorem repetition_counts (c : Config) (raised : String → Nat → Bool) (order : List String) (fuel : Nat)
+    (hn : order.Nodup) (a : String) (ha : a ∈ order)
+    (hdone : (runLoop c raised fuel (initState order)).queue = []) :
+    let fin := runLoop c raised fuel (initState order)
+    (c.isIterated a = false → fin.trace.count a = 1) ∧
+    (∀ it, c.isIterated a = true → c.iterationOf a = some it →
+       1 ≤ fin.trace.count a ∧ fin.trace.count a ≤ max it.repetitions 1 ∧
+       (a ∈ fin.stopped ∨ fin.trace.count a = max it.repetitions 1)) :=
+  execution_counts c raised order fuel hn a ha hdone
+
+/-- the premises are met by the F7 plan and the conclusion is what the trace shows: X once, U and L twice -/
+example :
+    let c : Config := ⟨[⟨"X", []⟩, ⟨"U", []⟩, ⟨"L", ["U", "X"]⟩], [⟨"it", ["U", "L"], 2, "", false⟩]⟩
+    (runLoop c (fun _ _ => false) 10 (initState ["X", "U", "L"])).queue = [] ∧
+    (runLoop c (fun _ _ => false) 10 (initState ["X", "U", "L"])).trace = ["X", "U", "L", "U", "L"] := by
+  decide
+
 /-- Non-vacuity: the F7 plan (X, U, L requires U and X, iteration [U, L] twice) has measure 5. -/
 example : mu ⟨[⟨"X", []⟩, ⟨"U", []⟩, ⟨"L", ["U", "X"]⟩], [⟨"it", ["U", "L"], 2, "", false⟩]⟩ [] ["X", "U", "L"] = 5 := by
   decide
